@@ -471,6 +471,61 @@ Section AnalysisProofs.
       destruct (run_inv k _ _ c Hk HI Hc1) as (J1 & J2 & _). split; [exact J1|]. intros _. exact J2.
   Qed.
 
+  (* ---------------------------------------------------------------- histories with interrupted runs *)
+  Notation run_interrupted := (run_interrupted X M V D St O Sc zero plus contrib comp sf model disc).
+  Notation hist_seq := (hist_seq X M V D St O Sc zero plus contrib comp sf model disc).
+  Notation hist_rows := (hist_rows X M V D sf model).
+  Notation rows_h := (rows_h X M V D sf model).
+
+  Lemma run_interrupted_inv k seen st c j :
+    1 <= k -> Inv k seen st -> ok_container c ->
+    Inv k (seen ++ rows_h (Some k) (c, Some j)) (run_interrupted (Some k) st c j).
+  Proof.
+    intros Hk HI [Hne Hbs]. unfold Analysis.run_interrupted, Analysis.rows_h. cbn [fst snd].
+    assert (Hebs : 1 <= eff_bs (Some k) (c_bs c)) by (apply eff_bs_pos; [exact Hk|exact Hbs]).
+    assert (Hall := batches_nonempty (c_rows c) _ Hebs).
+    rewrite <- (firstn_skipn j (batches_of (c_rows c) (eff_bs (Some k) (c_bs c)))) in Hall.
+    apply Forall_app in Hall. destruct Hall as [Hall _].
+    destruct (fold_inv k c _ seen st Hk HI Hall) as (H1 & _). exact H1.
+  Qed.
+
+  Lemma hist_inv k hs :
+    1 <= k -> Forall (fun h => ok_container (fst h)) hs -> Inv k (hist_rows (Some k) hs) (hist_seq (Some k) fresh hs).
+  Proof.
+    intros Hk. induction hs as [|[c o] hs IH] using rev_ind; intros Hall.
+    - apply Inv_fresh.
+    - apply Forall_app in Hall. destruct Hall as [Hall Hc]. inversion Hc as [|? ? Hc1 _]; subst. cbn [fst] in Hc1.
+      specialize (IH Hall). unfold Analysis.hist_seq, Analysis.hist_rows in *.
+      rewrite fold_left_app, map_app, concat_app. cbn [fold_left map concat]. rewrite app_nil_r.
+      destruct o as [j|].
+      + unfold Analysis.run_h at 1. cbn [fst snd]. apply run_interrupted_inv; assumption.
+      + unfold Analysis.run_h at 1. cbn [fst snd]. unfold Analysis.rows_h. cbn [fst snd].
+        destruct (run_inv k _ _ c Hk IH Hc1) as (J1 & _). exact J1.
+  Qed.
+
+  (* the convergence clauses for histories in which some run() calls raise on a later batch: an interrupted run contributes
+     the batches processed before the failure, also to the bookkeeping; the columns appended before the failure stay *)
+  Theorem convergence_with_interrupted_runs_thm : forall (k : nat) (hs : list (container * option nat)),
+    1 <= k -> Forall (fun h => c_rows (fst h) <> [] /\ 1 <= c_bs (fst h)) hs ->
+    let st := hist_seq (Some k) fresh hs in
+    let rows := hist_rows (Some k) hs in
+    processed st = length rows
+    /\ acc st = upd zero rows
+    /\ StronglySorted lt (map fst (cols st))
+    /\ (forall l1 p l2, cols st = l1 ++ (p, Regular) :: l2 -> last_regular l1 + k <= p)
+    /\ Forall (fun p => p <= length rows) (map fst (cols st))
+    /\ conv st = map (fun p => disc (comp (upd zero (firstn p rows)))) (map fst (cols st)).
+  Proof.
+    intros k hs Hk Hall. cbv zeta. assert (HI := hist_inv k hs Hk Hall).
+    split; [apply (I_proc _ _ _ HI)|]. split; [apply (I_acc _ _ _ HI)|]. split; [apply (I_sorted _ _ _ HI)|].
+    split.
+    - intros l1 p l2 Hcols. assert (Hsp := I_spaced _ _ _ HI). rewrite Hcols in Hsp.
+      apply (spaced_from_split k l1 0 p l2 Hsp).
+    - split.
+      + rewrite <- (I_proc _ _ _ HI). apply (I_le _ _ _ HI).
+      + apply (I_conv _ _ _ HI).
+  Qed.
+
   (* ================================================================ the theorems of C02 *)
   Theorem run_eq_oneshot_thm : forall (cs : option nat) (st : ast) (c : container),
     step_ok cs -> ok_container c ->
@@ -511,7 +566,7 @@ Section AnalysisProofs.
      (any convergence setting); nothing else changed *)
   Theorem run_interrupted_thm : forall (cs : option nat) (st : ast) (c : container) (k : nat),
     step_ok cs -> 1 <= c_bs c -> k <= length (c_rows c) / eff_bs cs (c_bs c) ->
-    let st' := run_interrupted X M V D St O Sc zero plus contrib comp sf model disc cs st c k in
+    let st' := run_interrupted cs st c k in
     acc st' = upd (acc st) (firstn (k * eff_bs cs (c_bs c)) (rows_of c))
     /\ processed st' = processed st + k * eff_bs cs (c_bs c).
   Proof.
